@@ -289,4 +289,21 @@ example : (run (init exCfg exBlocks) exScheduleEnd).map (fun s => (s.returned, s
 
 example : stRun exBlocks = ([1, 2, 3, 4, 5], END) := by decide
 
+/-- Error path: the second Block fails after all of its output; under a schedule in which both workers finish before the main
+    thread looks, the model returns LZMA_DATA_ERROR after delivering all five bytes, as the single-threaded decoder does. -/
+def exBlocksErr : List Block :=
+  [{ kind := .thr, inSize := 8, needIn := 8, data := [1, 2, 3], ret := END, memThr := 10, memOut := 5 },
+   { kind := .thr, inSize := 4, needIn := 4, data := [4, 5], ret := DATA_ERROR, memThr := 10, memOut := 5 },
+   { kind := .sync, ret := END }]
+
+def exScheduleErr : List Label :=
+  exSchedule ++
+  [.wDecode 0 8 3 true, .wFin1 0, .wFin2 0, .wFin3 0, .wDecode 1 4 2 true, .wFin1 1, .wFin2 1, .wFin3 1,
+   .rowIter .enter, .rowDone, .stopOne, .stopOne, .stopOne, .ret]
+
+example : (run (init exCfg exBlocksErr) exScheduleErr).map (fun s => (s.returned, s.delivered)) =
+    some (some DATA_ERROR, [1, 2, 3, 4, 5]) := by decide
+
+example : stRun exBlocksErr = ([1, 2, 3, 4, 5], DATA_ERROR) := by decide
+
 end XzVerif.C07
